@@ -298,6 +298,12 @@ def check_instance(ctx, facts, S, key, fn, inst, scope, cfg, report_key=None):
                 if g is not None and in_scope(g):
                     ctx.ok('C07.atomic', ident + '@' + cfg, {'exception': 'E1 `?` on in-scope callee through an error adaptor', 'callee': m['callee']})
                     continue
+            # ---- V1: the callee says by its bool result whether it did anything (`fn store(..) -> Result<bool, Error>`,
+            # `Ok(false)` = nothing stored), and this Err exit is taken only for the value on which it changed nothing
+            v1 = value_says_untouched(S, body, tsites, m, x)
+            if v1:
+                ctx.ok('C07.atomic', ident + '@' + cfg, {'exception': 'V1', 'proof': v1, 'mutation': m['what'], 'at': m['line']})
+                continue
             # ---- D1
             ok, why = d1(ctx, facts, S, key, fn, inst, m, x, cfg)
             if ok:
@@ -309,6 +315,64 @@ def check_instance(ctx, facts, S, key, fn, inst, scope, cfg, report_key=None):
                           site=m['line'], fn=rk, cfg=cfg,
                           detail={'mutation': m['what'], 'mutation_at': m['line'], 'err_exit': xdesc(body, inst, x),
                                   'err_exit_at': exit_line(body, x)})
+
+
+def ok_bool_exits(gbody):
+    """{True: [bb], False: [bb]} blocks of a Result<bool, _> function that build `Ok(<literal>)`; None when some Ok exit
+    carries a computed value"""
+    out = {True: [], False: []}
+    errs, oks = core.result_exits(gbody)
+    for (b, kind, d) in oks:
+        if kind != 'ctor':
+            return None
+        st = gbody.blocks[b]['stmts'][d]
+        ops = st['rv'].get('ops') or []
+        if len(ops) != 1:
+            return None
+        c = gbody.canon_op(ops[0])
+        if not (isinstance(c, tuple) and c[0] == 'const' and c[1] in (0, 1, True, False)):
+            return None
+        out[bool(c[1])].append(b)
+    return out
+
+
+def value_says_untouched(S, body, tsites, m, x):
+    if not (m['idx'] == 'term' and 'callee' in m and m.get('kind') in ('crate', 'cha')) or x['kind'] != 'ctor':
+        return None
+    g = S.inst(m['callee']).fn
+    if g is None or g.reachable or not re.match(r'^std::result::Result<bool, ', g.output or ''):
+        return None
+    ts = [t for t in tsites if t['call_bb'] == m['bb'] and t['ok_bb'] is not None]
+    if len(ts) != 1:
+        return None
+    ts = ts[0]
+    # the switch on the payload: canonical discriminant mentions the Continue payload of this `?`
+    for sb in range(body.n):
+        t = body.term(sb)
+        if t['k'] != 'switch' or len(t['targets']) != 1 or t['targets'][0][0] != 0 or not body.dominates(ts['ok_bb'], sb):
+            continue
+        c = body.canon_op(t['discr'])
+        neg = False
+        while isinstance(c, tuple) and c[:2] == ('un', 'Not'):
+            neg, c = (not neg), c[2]
+        txt = repr(c)
+        if 'Continue' not in txt or ('(%d' % ts['branch_bb']) not in txt.replace(' ', '') and str(ts['branch_bb']) not in txt:
+            continue
+        if not (isinstance(c, tuple) and c[0] == 'field'):
+            continue
+        f_edge, t_edge = (sb, t['targets'][0][1]), (sb, t['otherwise'])
+        for edge, disc_true in ((f_edge, False), (t_edge, True)):
+            if body.edge_dominates(edge, x['bb']):
+                val = (not disc_true) if neg else disc_true          # value of the payload on this edge
+                exits = ok_bool_exits(g.body)
+                if not exits or not exits[val]:
+                    return None
+                for gm in S.mutation_sites(m['callee']):
+                    reach = g.body.reachable_from(gm['bb'])
+                    if any(e in reach for e in exits[val]):
+                        return None
+                return '%s returns Ok(%s) only on paths on which it has modified nothing, and this exit is taken only for that value' % (core.short(g.path), str(val).lower())
+    return None
 
 
 ATOMIC_EXT = re.compile(r'^std::vec::Vec::<.*>::try_reserve(_exact)?$|^std::collections::.*::try_reserve$')
